@@ -99,12 +99,14 @@ func (s *Server) handleAuthentication(conn net.Conn) error {
 		}
 		return fmt.Errorf("socks5 client provided authentication is not supported by socks5 server")
 	}
-	if requestNoAuth {
-		// Handle no authentication. This has higher priority than user password authentication.
-		if !requestUserPassAuth && len(s.config.AuthOpts.IngressCredentials) > 0 {
-			HandshakeErrors.Add(1)
-			return fmt.Errorf("socks5 client requested no authentication, but user and password are required by socks5 server")
-		}
+	credentialsRequired := len(s.config.AuthOpts.IngressCredentials) > 0
+	if requestNoAuth && credentialsRequired && !requestUserPassAuth {
+		HandshakeErrors.Add(1)
+		return fmt.Errorf("socks5 client requested no authentication, but user and password are required by socks5 server")
+	}
+	if requestNoAuth && !credentialsRequired {
+		// Handle no authentication. When credentials are configured, a client
+		// that also offers no authentication must still present them.
 		if _, err := conn.Write([]byte{constant.Socks5Version, constant.Socks5NoAuth}); err != nil {
 			HandshakeErrors.Add(1)
 			return fmt.Errorf("write authentication response (no authentication required) failed: %w", err)
